@@ -275,6 +275,8 @@ fn tampering(rep: &mut Report, m: Mech, from_client: bool, rng: &mut Rng, thorou
     SwapRec(usize),
     Cut(usize),
     Inject(usize, usize),
+    /// a forged, well-framed record (16-bit length n, then n random bytes) inserted in front of record i (or at the end)
+    ForgeRec(usize, usize),
   }
   let mut muts: Vec<Mutn> = vec![];
   // every bit of the first 3 records
@@ -303,6 +305,12 @@ fn tampering(rep: &mut Report, m: Mech, from_client: bool, rng: &mut Rng, thorou
   }
   for _ in 0..20 {
     muts.push(Mutn::Inject(rng.range(0, probe.len()), rng.range(1, 40)));
+  }
+  // forged records at every record boundary: empty, shorter than a MAC, exactly a MAC, longer
+  for i in 0..=recs.len() {
+    for n in [0usize, 1, 15, 16, 17, 48] {
+      muts.push(Mutn::ForgeRec(i, n));
+    }
   }
   // double mutations (sampled)
   let n_double = if thorough { 300 } else { 40 };
@@ -362,6 +370,13 @@ fn tampering(rep: &mut Report, m: Mech, from_client: bool, rng: &mut Rng, thorou
         let junk = rng.bytes(*n);
         let at = (*at).min(v.len());
         v.splice(at..at, junk);
+        (v, false)
+      }
+      Mutn::ForgeRec(i, n) => {
+        let at = recs.get(*i).map(|r| r.0).unwrap_or(v.len()).min(v.len());
+        let mut forged = (*n as u16).to_be_bytes().to_vec();
+        forged.extend(rng.bytes(*n));
+        v.splice(at..at, forged);
         (v, false)
       }
     }
@@ -442,11 +457,130 @@ fn session_distinctness(rep: &mut Report, m: Mech, rng: &mut Rng, sessions: usiz
   }
 }
 
+/// (stack) real sockets over CURVE / NOISE_XX: bursts that the session coalesces into batches far beyond one 64 KiB
+/// record, single messages beyond a record, multipart messages. Every message send() accepted must be decodable by the
+/// peer - i.e. arrive, exactly once, in order, byte-exact (the C01 oracle); an accepted message that kills the
+/// connection or vanishes is "silently mangled".
+async fn stack_case(rep: &mut Report, rng: &mut Rng, m: Mech, tr: util::Transport, shape: &'static str, dealer: bool) {
+  use rzmq::socket::options as opt;
+  use rzmq::SocketType;
+  use vh::oracles::{self, SendStatus, SentMsg};
+  let k = keys(m, rng);
+  let ctx = util::new_ctx();
+  let (st, rt) = if dealer { (SocketType::Dealer, SocketType::Router) } else { (SocketType::Push, SocketType::Pull) };
+  let r = ctx.socket(rt).unwrap();
+  let s = ctx.socket(st).unwrap();
+  match m {
+    Mech::Curve => {
+      r.set_option(opt::CURVE_SERVER, true).await.unwrap();
+      r.set_option_raw(opt::CURVE_SECRET_KEY, &k.srv.0).await.unwrap();
+      s.set_option_raw(opt::CURVE_SECRET_KEY, &k.cli.0).await.unwrap();
+      s.set_option_raw(opt::CURVE_SERVER_KEY, &k.srv.1).await.unwrap();
+    }
+    Mech::Noise => {
+      r.set_option(opt::NOISE_XX_ENABLED, true).await.unwrap();
+      r.set_option_raw(opt::NOISE_XX_STATIC_SECRET_KEY, &k.srv.0).await.unwrap();
+      s.set_option(opt::NOISE_XX_ENABLED, true).await.unwrap();
+      s.set_option_raw(opt::NOISE_XX_STATIC_SECRET_KEY, &k.cli.0).await.unwrap();
+      s.set_option_raw(opt::NOISE_XX_REMOTE_STATIC_PUBLIC_KEY, &k.srv.1).await.unwrap();
+    }
+  }
+  util::set_i32(&r, opt::RCVTIMEO, 1500).await;
+  util::set_i32(&s, opt::SNDTIMEO, 5000).await;
+  let ep = match util::bind_fresh(&r, tr).await {
+    Ok(e) => e,
+    Err(e) => {
+      rep.inconclusive(format!("bind {e}"));
+      return;
+    }
+  };
+  let _ = s.connect(&ep).await;
+  tokio::time::sleep(Duration::from_millis(500)).await;
+  let run = (rng.next() & 0x7FFF_FFFF) as u32;
+  let plan: Vec<Vec<usize>> = match shape {
+    "burst_1k" => (0..300).map(|_| vec![1024]).collect(),
+    "burst_mixed" => (0..120).map(|i| if i == 60 { vec![70_000] } else if i % 7 == 3 { vec![vh::payload::HDR + 5, 0, 3000] } else { vec![vh::payload::HDR + (i * 37) % 2000] }).collect(),
+    "big_singles" => vec![vec![65_000], vec![65_519], vec![65_520], vec![66_000], vec![200_000], vec![100]],
+    _ => (0..40).map(|i| vec![vh::payload::HDR + 20, 30_000 + i * 100, 0, 20_000]).collect(),
+  };
+  let mut sent: Vec<SentMsg> = vec![];
+  for (seq, lens) in plan.iter().enumerate() {
+    let lens: Vec<usize> = lens.iter().map(|l| (*l).max(if lens.len() == 1 { vh::payload::HDR } else { 0 })).collect();
+    let frames = oracles::build_message(run, 1, seq as u32, u32::MAX, &lens);
+    let nf = frames.len();
+    let msgs: Vec<rzmq::Msg> = frames.into_iter().enumerate().map(|(i, f)| util::msg(f, i + 1 < nf)).collect();
+    let ok = s.send_multipart(msgs).await.is_ok();
+    sent.push(SentMsg { sender: 1, seq: seq as u32, dest: u32::MAX, frame_lens: lens, status: if ok { SendStatus::Accepted } else { SendStatus::Maybe } });
+    // DEALER egress keeps order only when paced (recorded under C01)
+    if dealer && seq % 8 == 7 {
+      tokio::time::sleep(Duration::from_millis(2)).await;
+    }
+  }
+  let mut got: Vec<Vec<Vec<u8>>> = vec![];
+  let mut idle = 0;
+  while idle < 2 {
+    match r.recv_multipart().await {
+      Ok(mm) => {
+        idle = 0;
+        let mut v: Vec<Vec<u8>> = mm.into_iter().map(|f| f.data().unwrap_or(&[]).to_vec()).collect();
+        if dealer && !v.is_empty() {
+          v.remove(0);
+        }
+        got.push(v);
+      }
+      Err(_) => idle += 1,
+    }
+  }
+  let f = oracles::check_receiver(run, &sent, &got, None, true);
+  let mut kinds = f.kinds();
+  if dealer {
+    kinds.retain(|k| *k != "reordered");
+  }
+  let accepted = sent.iter().filter(|x| x.status == SendStatus::Accepted).count();
+  rep.case(&("stack", m, tr, shape, dealer), true);
+  rep.count("stack_messages_accepted", accepted as u64);
+  rep.count("stack_messages_received", got.len() as u64);
+  if !kinds.is_empty() {
+    rep.violation(
+      format!("accepted_messages_not_decodable_by_peer|{:?}|{}|{}", m, shape, kinds.join("+")),
+      format!("{:?} {} over {} ({}): {} accepted, {} received: {}", m, if dealer { "DEALER->ROUTER" } else { "PUSH->PULL" }, tr.name(), shape, accepted, got.len(), kinds.join("+")),
+      json!({"mechanism": format!("{:?}", m), "shape": shape, "accepted": accepted, "received": got.len(), "findings": f.to_json()}),
+    );
+  }
+  let _ = tokio::time::timeout(Duration::from_secs(12), ctx.term()).await;
+}
+
 fn main() {
   let args = Args::parse();
   util::install_panic_watch();
   let mut rep = Report::new("C18", &args.shard_name());
   let mut rng = Rng::new(args.seed.wrapping_mul(15485863).wrapping_add(args.shard as u64));
+  if args.only.as_deref() == Some("stack") {
+    let rt = util::runtime(2);
+    let mut i = 0;
+    for m in [Mech::Curve, Mech::Noise] {
+      for shape in ["burst_1k", "burst_mixed", "big_singles", "multipart_big"] {
+        for (tr, dealer) in [(util::Transport::Tcp, false), (util::Transport::Ipc, true)] {
+          i += 1;
+          if !args.mine(i) || (!args.thorough() && dealer && shape != "burst_1k") {
+            continue;
+          }
+          util::guarded(&rt, stack_case(&mut rep, &mut rng, m, tr, shape, dealer));
+        }
+      }
+    }
+    util::cleanup_ipc_dir();
+    for p in util::take_panics() {
+      if p.in_rzmq {
+        rep.violation(format!("panic|{}", util::panic_site(&p.location)), format!("panic at {}: {}", p.location, p.message), json!({"frames": p.backtrace_head}));
+      } else {
+        rep.inconclusive(format!("harness panic at {}: {}", p.location, p.message));
+      }
+    }
+    rep.merge_hooks();
+    rep.emit();
+    return;
+  }
   let mut idx = 0;
   for m in [Mech::Curve, Mech::Noise] {
     for from_client in [true, false] {
